@@ -22,7 +22,7 @@ type c11path struct {
 	Gossip string   `json:"gossip"`
 }
 
-var c11middle = []string{"sub-a", "sub-b#", "sub-a+b#", "unsub-a", "unsub-b#", "ping", "idle-1s", "idle-3.5s", "idle-0.9K", "idle-1.4K"}
+var c11middle = []string{"sub-a", "sub-b#", "sub-a+b#", "unsub-a", "unsub-b#", "ping", "idle-1s", "idle-3.5s", "idle-0.9K", "idle-1.4K", "recv"}
 
 func c11paths() []c11path {
 	var out []c11path
@@ -69,6 +69,11 @@ func c11paths() []c11path {
 				run := 0.0
 				for _, e := range s {
 					d := map[string]float64{"idle-1s": 1, "idle-3.5s": 3.5, "idle-0.9K": 0.9 * float64(k), "idle-1.4K": 1.4 * float64(k)}[e]
+					if e == "recv" {
+						// being sent something is not a packet FROM the client: the silence goes on
+						run += 0.3
+						continue
+					}
 					if d == 0 {
 						run = 0.3
 					} else {
@@ -88,7 +93,7 @@ func c11paths() []c11path {
 			if len(s) > 2 && !vk.Thorough() {
 				continue
 			}
-			gossips := []string{"auto", "withhold-all", "reverse"}
+			gossips := []string{"auto", "withhold-all", "reverse", "withhold-0"}
 			if vk.Thorough() && len(s) <= 2 {
 				gossips = append(gossips, "withhold-0", "withhold-1", "withhold-2", "withhold-3", "withhold-4")
 			}
@@ -160,6 +165,7 @@ func TestC11Lifecycle(t *testing.T) {
 				}
 				mid := int32(1)
 				pings := 0
+				var feeder *Client
 				subscribed := map[string]bool{}
 				for k, ev := range p.Middle {
 					mid++
@@ -179,6 +185,14 @@ func TestC11Lifecycle(t *testing.T) {
 					case "unsub-b#":
 						c.Unsubscribe(mid, "b/#")
 						delete(subscribed, "b/#")
+					case "recv":
+						// somebody publishes on both filters the script may hold: the broker writes to the session (QoS 0)
+						if feeder == nil {
+							feeder = w.NewClient("feeder", p.Nodes, AckAll)
+							feeder.Connect(ConnectOpts{ClientID: "feeder", KeepAlive: 6000})
+						}
+						feeder.Publish("a", "feed", 0, false, 0)
+						feeder.Publish("b/x", "feed", 0, false, 0)
 					case "ping":
 						c.Ping()
 						pings++
